@@ -28,6 +28,10 @@ From CM Require Import Model.Run Proofs.RunLift.
 Theorem C01_whole_run_lift : C01_lift_statement run_tables_v.
 Proof. exact C01_lift. Qed.
 Print Assumptions C01_whole_run_lift.
+(** the statement above is the law, not the vacuous branch: on the tables read from the current source every pipeline
+    returns early when the transformer reports no change (if a pipeline loses that guard this example stops compiling) *)
+Example C01_lift_not_vacuous : nochange_guarded run_tables_v = true.
+Proof. reflexivity. Qed.
 
 (** a file without a changeset is byte-identical, hence still parses *)
 Theorem C01_unchanged_files_identical : C03_unchanged_statement.
